@@ -493,6 +493,17 @@ fn main() {
             _ => { let c = g.range(all.len() as u64 / 2, all.len() as u64) as usize; jobs.push(vec![Item::Data(all[..c].to_vec())]); }
         }
     }
+    // runs of one rejected message kind at boundary lengths, with peers up and routes announced, then every kind of end
+    for _ in 0..(if args.thorough { 600 } else { 90 }) {
+        let all: Vec<u8> = run_stream(&mut g).concat();
+        rec.bump("cut.rejected-run-session");
+        match g.below(4) {
+            0 => jobs.push(vec![Item::Data(all)]),
+            1 => jobs.push(vec![Item::Data(all), Item::Fault(ErrorKind::ConnectionReset)]),
+            2 => jobs.push(vec![Item::Data(all), Item::Term]),
+            _ => { let c = g.range(all.len() as u64 * 3 / 4, all.len() as u64) as usize; jobs.push(vec![Item::Data(all[..c].to_vec())]); }
+        }
+    }
     // a non-fatal fault in the middle of a message desynchronises the framing; payload bytes are then
     // read as a length and the real code allocates and zeroes that much (up to 4 GiB) — not run
     let before = jobs.len();
